@@ -38,30 +38,30 @@ func init() {
 	models = map[string]modelFn{}
 	tv := func(x *Exec, term string) Value { return Value{T: x.v.timeType(), S: term} }
 	bv := func(term string) Value { return Value{T: tBool, S: term} }
-	models["(time.Time).Add"] = func(x *Exec, s *State, in ssa.Instruction, a []Value, c *ssa.CallCommon) (Value, bool) {
+	models["time.(Time).Add"] = func(x *Exec, s *State, in ssa.Instruction, a []Value, c *ssa.CallCommon) (Value, bool) {
 		return tv(x, app("+", a[0].S, a[1].S)), true
 	}
-	models["(time.Time).Sub"] = func(x *Exec, s *State, in ssa.Instruction, a []Value, c *ssa.CallCommon) (Value, bool) {
+	models["time.(Time).Sub"] = func(x *Exec, s *State, in ssa.Instruction, a []Value, c *ssa.CallCommon) (Value, bool) {
 		d := app("-", a[0].S, a[1].S)
 		lo, hi, _ := intRange(types.Typ[types.Int64])
 		return Value{T: c.Signature().Results().At(0).Type(), S: ite(app(">", d, hi), hi, ite(app("<", d, lo), lo, d))}, true
 	}
-	models["(time.Time).After"] = func(x *Exec, s *State, in ssa.Instruction, a []Value, c *ssa.CallCommon) (Value, bool) {
+	models["time.(Time).After"] = func(x *Exec, s *State, in ssa.Instruction, a []Value, c *ssa.CallCommon) (Value, bool) {
 		return bv(app(">", a[0].S, a[1].S)), true
 	}
-	models["(time.Time).Before"] = func(x *Exec, s *State, in ssa.Instruction, a []Value, c *ssa.CallCommon) (Value, bool) {
+	models["time.(Time).Before"] = func(x *Exec, s *State, in ssa.Instruction, a []Value, c *ssa.CallCommon) (Value, bool) {
 		return bv(app("<", a[0].S, a[1].S)), true
 	}
-	models["(time.Time).Equal"] = func(x *Exec, s *State, in ssa.Instruction, a []Value, c *ssa.CallCommon) (Value, bool) {
+	models["time.(Time).Equal"] = func(x *Exec, s *State, in ssa.Instruction, a []Value, c *ssa.CallCommon) (Value, bool) {
 		return bv(eq(a[0].S, a[1].S)), true
 	}
-	models["(time.Time).IsZero"] = func(x *Exec, s *State, in ssa.Instruction, a []Value, c *ssa.CallCommon) (Value, bool) {
+	models["time.(Time).IsZero"] = func(x *Exec, s *State, in ssa.Instruction, a []Value, c *ssa.CallCommon) (Value, bool) {
 		return bv(eq(a[0].S, timeZeroNS)), true
 	}
-	models["(time.Time).UnixNano"] = func(x *Exec, s *State, in ssa.Instruction, a []Value, c *ssa.CallCommon) (Value, bool) {
+	models["time.(Time).UnixNano"] = func(x *Exec, s *State, in ssa.Instruction, a []Value, c *ssa.CallCommon) (Value, bool) {
 		return Value{T: types.Typ[types.Int64], S: wrapInt(a[0].S, types.Typ[types.Int64], false)}, true
 	}
-	models["(time.Time).Unix"] = func(x *Exec, s *State, in ssa.Instruction, a []Value, c *ssa.CallCommon) (Value, bool) {
+	models["time.(Time).Unix"] = func(x *Exec, s *State, in ssa.Instruction, a []Value, c *ssa.CallCommon) (Value, bool) {
 		return Value{T: types.Typ[types.Int64], S: app("div", a[0].S, "1000000000")}, true
 	}
 	models["time.Unix"] = func(x *Exec, s *State, in ssa.Instruction, a []Value, c *ssa.CallCommon) (Value, bool) {
@@ -73,7 +73,7 @@ func init() {
 		s.assume(and(app("<=", "0", t), app("<", t, "9223372036854775807")))
 		return tv(x, t), true
 	}
-	models["(time.Time).Format"] = func(x *Exec, s *State, in ssa.Instruction, a []Value, c *ssa.CallCommon) (Value, bool) {
+	models["time.(Time).Format"] = func(x *Exec, s *State, in ssa.Instruction, a []Value, c *ssa.CallCommon) (Value, bool) {
 		x.declareFun("time_format", []string{sInt, sStr}, sStr)
 		return Value{T: tString, S: app("time_format", a[0].S, a[1].S)}, true
 	}
@@ -85,14 +85,14 @@ func init() {
 		s.write(key, r, a[0].S)
 		return Value{T: c.Signature().Results().At(0).Type(), S: r}, true
 	}
-	models["(*google.golang.org/protobuf/types/known/durationpb.Duration).AsDuration"] = func(x *Exec, s *State, in ssa.Instruction, a []Value, c *ssa.CallCommon) (Value, bool) {
+	models["google.golang.org/protobuf/types/known/durationpb.(*Duration).AsDuration"] = func(x *Exec, s *State, in ssa.Instruction, a []Value, c *ssa.CallCommon) (Value, bool) {
 		return Value{T: c.Signature().Results().At(0).Type(), S: x.durOf(s, s.heap, a[0].S)}, true
 	}
 	noop := func(x *Exec, s *State, in ssa.Instruction, a []Value, c *ssa.CallCommon) (Value, bool) {
 		return Value{}, true
 	}
-	models["(*sync.Mutex).Lock"] = noop
-	models["(*sync.Mutex).Unlock"] = noop
+	models["sync.(*Mutex).Lock"] = noop
+	models["sync.(*Mutex).Unlock"] = noop
 	models["runtime.SetFinalizer"] = noop
 	models["fmt.Printf"] = func(x *Exec, s *State, in ssa.Instruction, a []Value, c *ssa.CallCommon) (Value, bool) {
 		return x.freshResult(s, c.Signature().Results()), true
